@@ -17,6 +17,7 @@ import (
 type provAlt struct {
 	leaf  ssa.Value
 	conds []Cond
+	alias []ssa.Value // helper parameters the leaf was bound to on the way (the conditions may speak about them)
 }
 
 type provCtx struct {
@@ -114,28 +115,28 @@ func (pc *provCtx) evalOnPath(fn *ssa.Function, p *provPath, at ssa.Instruction,
 		return nil
 	case *ssa.Parameter:
 		if b, ok := curBind[x]; ok {
-			return []provAlt{{b, nil}} // a value of the caller's frame: resolved by the caller of provenanceOf
+			return []provAlt{{b, nil, []ssa.Value{x}}} // a value of the caller's frame: resolved by the caller of provenanceOf
 		}
-		return []provAlt{{x, nil}}
+		return []provAlt{{x, nil, nil}}
 	case *ssa.UnOp:
 		if x.Op != token.MUL {
-			return []provAlt{{x, nil}}
+			return []provAlt{{x, nil, nil}}
 		}
 		switch a := x.X.(type) {
 		case *ssa.Alloc:
 			if a.Parent() != fn {
-				return []provAlt{{x, nil}}
+				return []provAlt{{x, nil, nil}}
 			}
 			// whole-cell stores
 			st := lastStore(p, x, func(ad ssa.Value) bool { return ad == ssa.Value(a) })
 			if st == nil {
-				return []provAlt{{x, nil}}
+				return []provAlt{{x, nil, nil}}
 			}
 			return pc.evalOnPath(fn, p, st, st.Val, depth+1)
 		case *ssa.FieldAddr:
 			base, isAlloc := a.X.(*ssa.Alloc)
 			if !isAlloc || base.Parent() != fn {
-				return []provAlt{{x, nil}}
+				return []provAlt{{x, nil, nil}}
 			}
 			fld := a.Field
 			// the last store to this field of the local struct, or to the whole struct
@@ -147,14 +148,14 @@ func (pc *provCtx) evalOnPath(fn *ssa.Function, p *provPath, at ssa.Instruction,
 				return ok && fa.X == ssa.Value(base) && fa.Field == fld
 			})
 			if st == nil {
-				return []provAlt{{x, nil}}
+				return []provAlt{{x, nil, nil}}
 			}
 			if st.Addr == ssa.Value(base) {
 				return pc.fieldOf(fn, p, st, st.Val, fld, depth+1)
 			}
 			return pc.evalOnPath(fn, p, st, st.Val, depth+1)
 		}
-		return []provAlt{{x, nil}}
+		return []provAlt{{x, nil, nil}}
 	case *ssa.Field:
 		return pc.fieldOf(fn, p, at, x.X, x.Field, depth+1)
 	case *ssa.Extract:
@@ -163,14 +164,14 @@ func (pc *provCtx) evalOnPath(fn *ssa.Function, p *provPath, at ssa.Instruction,
 				return alts
 			}
 		}
-		return []provAlt{{x, nil}}
+		return []provAlt{{x, nil, nil}}
 	case *ssa.Call:
 		if alts, ok := pc.helperResult(x, 0, -1, depth+1); ok {
 			return alts
 		}
-		return []provAlt{{x, nil}}
+		return []provAlt{{x, nil, nil}}
 	}
-	return []provAlt{{v, nil}}
+	return []provAlt{{v, nil, nil}}
 }
 
 // fieldOf: the alternatives of field `fld` of the struct VALUE sv.
@@ -249,7 +250,7 @@ func (pc *provCtx) helperResult(call *ssa.Call, idx, fld, depth int) ([]provAlt,
 					alts = pc.evalOnPath(h, p, ret, rv, depth+1)
 				}
 				for _, a := range alts {
-					out = append(out, provAlt{a.leaf, append(append([]Cond{}, p.conds...), a.conds...)})
+					out = append(out, provAlt{a.leaf, append(append([]Cond{}, p.conds...), a.conds...), a.alias})
 				}
 			})
 		}
@@ -259,6 +260,7 @@ func (pc *provCtx) helperResult(call *ssa.Call, idx, fld, depth int) ([]provAlt,
 		if prm, ok := out[i].leaf.(*ssa.Parameter); ok {
 			if b, has := bind[prm]; has {
 				out[i].leaf = b
+				out[i].alias = append(out[i].alias, prm)
 			}
 		}
 	}
@@ -286,7 +288,7 @@ func provenanceOf(c *Ctx, fn *ssa.Function, at ssa.Instruction, v ssa.Value) ([]
 								continue
 							}
 							for _, s := range sub {
-								next = append(next, provAlt{s.leaf, append(append([]Cond{}, x.conds...), s.conds...)})
+								next = append(next, provAlt{s.leaf, append(append([]Cond{}, x.conds...), s.conds...), append(append([]ssa.Value{}, x.alias...), s.alias...)})
 							}
 							changed = true
 							continue
@@ -300,7 +302,7 @@ func provenanceOf(c *Ctx, fn *ssa.Function, at ssa.Instruction, v ssa.Value) ([]
 				}
 			}
 			for _, x := range alts {
-				out = append(out, provAlt{x.leaf, append(append([]Cond{}, p.conds...), x.conds...)})
+				out = append(out, provAlt{x.leaf, append(append([]Cond{}, p.conds...), x.conds...), x.alias})
 			}
 		}
 	})
@@ -308,3 +310,76 @@ func provenanceOf(c *Ctx, fn *ssa.Function, at ssa.Instruction, v ssa.Value) ([]
 }
 
 var _ = types.Typ
+
+// provenanceOfCell: alternatives of the content of a local cell at instruction `at` of fn.
+func provenanceOfCell(c *Ctx, fn *ssa.Function, at ssa.Instruction, cell ssa.Value) ([]provAlt, bool) {
+	pc := &provCtx{c: c, budget: 200000, ok: true}
+	var out []provAlt
+	pc.pathsTo(fn, at.Block(), func(p *provPath) {
+		st := lastStore(p, at, func(ad ssa.Value) bool { return ad == cell })
+		if st == nil {
+			out = append(out, provAlt{cell, append([]Cond{}, p.conds...), nil})
+			return
+		}
+		for _, a := range pc.evalOnPath(fn, p, st, st.Val, 1) {
+			out = append(out, provAlt{a.leaf, append(append([]Cond{}, p.conds...), a.conds...), a.alias})
+		}
+	})
+	return out, pc.ok
+}
+
+// provenanceThroughClosures: provenanceOf, continued into the enclosing functions for leaves that are captured
+// variables (by value, or the content of a captured cell as it was when the closure was made).
+func provenanceThroughClosures(c *Ctx, fn *ssa.Function, at ssa.Instruction, v ssa.Value, depth int) ([]provAlt, bool) {
+	alts, ok := provenanceOf(c, fn, at, v)
+	if !ok || depth > 3 {
+		return alts, ok
+	}
+	var out []provAlt
+	for _, a := range alts {
+		leaf := strip(a.leaf)
+		var fv *ssa.FreeVar
+		byRef := false
+		switch x := leaf.(type) {
+		case *ssa.FreeVar:
+			fv = x
+		case *ssa.UnOp:
+			if f, isF := x.X.(*ssa.FreeVar); isF && x.Op == token.MUL {
+				fv, byRef = f, true
+			}
+		}
+		mc := (*ssa.MakeClosure)(nil)
+		if fv != nil {
+			mc = makeClosureOf(fv.Parent())
+		}
+		if mc == nil {
+			out = append(out, a)
+			continue
+		}
+		idx := -1
+		for i, f := range fv.Parent().FreeVars {
+			if f == fv {
+				idx = i
+			}
+		}
+		if idx < 0 || idx >= len(mc.Bindings) {
+			out = append(out, a)
+			continue
+		}
+		var sub []provAlt
+		var sok bool
+		if byRef {
+			sub, sok = provenanceOfCell(c, mc.Parent(), mc, mc.Bindings[idx])
+			// leaves of the parent that are themselves captured continue upwards
+		} else {
+			sub, sok = provenanceThroughClosures(c, mc.Parent(), mc, mc.Bindings[idx], depth+1)
+		}
+		if !sok {
+			return nil, false
+		}
+		for _, s := range sub {
+			out = append(out, provAlt{s.leaf, append(append([]Cond{}, a.conds...), s.conds...), append(append([]ssa.Value{}, a.alias...), s.alias...)})
+		}
+	}
+	return out, true
+}
